@@ -30,6 +30,11 @@ def run(ctx):
             ctx.guard(generic_shape, ctx, kc, "C01.generic-shape")
     r.floor("C01.generic-geometry.groups", 8)
     r.floor("C01.generic-shape", 8)
+    # the same cut geometry for every concrete class of the bundled kits (the fragments the closed form is built from)
+    for kc in ctx.inventory:
+        if kc.concrete:
+            ctx.guard(geometry, ctx, kc, "C01.kit-geometry")
+    r.floor("C01.kit-geometry.groups", 80)
     run_kernels(ctx, ["K7", "K8", "K10", "K14", "K15", "K0"], "C01")
     # what the product also rests on: the search window, group extraction, rotation, the topology handed to the search
     run_kernels(ctx, ["K2", "K1", "K3"], "C01")
